@@ -328,7 +328,9 @@ func (m *Model) Apply(op Op) Expect {
 			if m.Opt.StrictPre {
 				return skip("remove target missing")
 			}
-			return Expect{Err: Yes}
+			// "remove deletes a file or an empty directory only": nothing is said about a
+			// missing target (both backends refuse it today; an idempotent Remove would be as good)
+			return Expect{Err: Either}
 		}
 		if op.Op == "Remove" && n.Dir && len(n.Kids) > 0 {
 			return Expect{Err: Yes}
